@@ -387,11 +387,11 @@ Proof.
   destruct (Z.compare_spec (type_id a) (type_id b)) as [E | L | G].
   - rewrite E, !lex_cons_eq. apply value_code_law; assumption.
   - rewrite (compare_type_rank a b L). cbn [cmp_then].
-    apply lex_cons_lt. apply N.compare_lt_iff.
-    rewrite <- Z2N.inj_compare by lia. apply Z.compare_lt_iff. lia.
+    apply lex_cons_lt. unfold N.lt.
+    rewrite Z2N.inj_compare by lia. apply Z.compare_lt_iff. lia.
   - rewrite (compare_type_rank_gt a b G). cbn [cmp_then].
-    apply lex_cons_gt. apply N.compare_lt_iff.
-    rewrite <- Z2N.inj_compare by lia. apply Z.compare_lt_iff. lia.
+    apply lex_cons_gt. unfold N.lt.
+    rewrite Z2N.inj_compare by lia. apply Z.compare_lt_iff. lia.
 Qed.
 
 Theorem idx_key_order : forall c f a b ida idb,
